@@ -54,6 +54,7 @@ Proof.
   - constructor.
   - discriminate.
   - discriminate.
+  - discriminate.
 Qed.
 Example C06_nonvacuous :
   let calls := [VByte 97; VByte 206; VByte 187; VByte 99; VByte 27; VByte 91; VByte 68; VByte 120; VWrite [HWrite [104; 105; 10; 33]];
